@@ -69,6 +69,9 @@ func oneCCrash(seed uint64, res *CCrashRes, h int) {
 	}
 	srv.Flush()
 	d.SetPerturb(rng.U64() | 1)
+	// seeded yields at the lock/commit hooks (between append, unlock and wait)
+	mon.Reset(rng.U64()|1, true)
+	defer mon.Off()
 	base := d.StartRecording()
 	var mu sync.Mutex
 	var all []*ccOp
@@ -79,6 +82,7 @@ func oneCCrash(seed uint64, res *CCrashRes, h int) {
 		cr := rng.Sub(uint64(c) + 5)
 		go func(c int, r *Rng) {
 			defer wg.Done()
+			mon.SetClient(c + 1)
 			size := uint64(0)
 			uid := uint64(c+1) * 10000
 			for i := 0; i < 7; i++ {
@@ -87,8 +91,8 @@ func oneCCrash(seed uint64, res *CCrashRes, h int) {
 					uid++
 					n := r.PickU32([]uint32{100, 4096, 5000})
 					st := 0
-					if r.Intn(5) == 0 {
-						st = 2
+					if r.Intn(5) == 0 || (h%2 == 1 && r.Intn(2) == 0) {
+						st = 2 // more stable acknowledgements next to the journal-rejected requests
 					}
 					op = &Op{K: OpWrite, H: fhs[c], Off: size, Count: n, DataLen: n, Uid: uid, Stable: st}
 					size += uint64(n)
@@ -117,18 +121,35 @@ func oneCCrash(seed uint64, res *CCrashRes, h int) {
 			}
 		}(c, cr)
 	}
-	if h%3 == 1 {
-		// a client whose requests the journal rejects as too large (go-journal
-		// resets its saved flush position when it rejects a transaction)
-		wg.Add(1)
-		go func() {
-			defer wg.Done()
-			for i := 0; i < 5; i++ {
-				doOp(srv.API, &Op{K: OpSymlink, H: srv.Root, Name: fmt.Sprintf("huge%d", i), Target: longName(520*BlockSize+1, 'H')})
-			}
-		}()
+	stop := make(chan struct{})
+	sabDone := make(chan struct{})
+	if h%2 == 1 {
+		// two clients whose requests the journal rejects as too large, for as
+		// long as the others run (go-journal resets its saved flush position
+		// when it rejects a transaction)
+		var swg sync.WaitGroup
+		for k := 0; k < 3; k++ {
+			swg.Add(1)
+			go func(k int) {
+				defer swg.Done()
+				target := longName(520*BlockSize+1, 'H')
+				for i := 0; ; i++ {
+					select {
+					case <-stop:
+						return
+					default:
+					}
+					doOp(srv.API, &Op{K: OpSymlink, H: srv.Root, Name: fmt.Sprintf("huge%d-%d", k, i), Target: target})
+				}
+			}(k)
+		}
+		go func() { swg.Wait(); close(sabDone) }()
+	} else {
+		close(sabDone)
 	}
 	wg.Wait()
+	close(stop)
+	<-sabDone
 	trace := d.StopRecording()
 	srv.WaitIdle()
 	srv.Shutdown()
